@@ -16,6 +16,8 @@ only); that the compiler keeps the store in sqisign_secure_clear (observed at ru
 import SqiProofs.KeccakPerm
 import SqiGen.KeccakParams
 import SqiProofs.SpongeMain
+import SqiProofs.SpongeGen4
+import SqiProofs.SpongeGenSq3
 import SqiProofs.Challenge
 import SqiProofs.C20Kat
 import SqiProofs.DrbgRefine
@@ -88,6 +90,72 @@ theorem squeeze_chunks (f : Fips202.State → Fips202.State) (r : Nat) (h0 : 0 <
 theorem squeeze_prefix (f : Fips202.State → Fips202.State) (r : Nat) (h0 : 0 < r) (st : IncState) (hp : st.pos < r)
     (a b : Nat) : (incSqueeze f r st a).1 = ((incSqueeze f r st (a + b)).1).take a :=
   SqiProofs.Sponge.squeeze_prefix f r h0 st hp a b
+
+/-! ### the sponge control code as re-extracted from the C text (tie T, tools/translate/sponge.py → SqiGen/Sponge.lean:
+    structured programs with `while` / `for` loops over the variables of each function) computes the hand model, so the
+    theorems above and below are theorems about the current text of fips202.c -/
+
+/-- `load64` -/
+theorem gen_load64_eq_model (x : List UInt8) : SqiGen.Sponge.load64 x = Sponge.load64 x := SqiProofs.SpongeGen.load64_eq x
+
+/-- `keccak_inc_absorb` (both loops, the `while (mlen + s_inc[25] >= r)` condition, the pointer / length / counter updates):
+    lanes and byte counter after the translated function = the model `incAbsorb`, from every state with `s_inc[25] < r` -/
+theorem gen_inc_absorb_eq_model (F : Fips202.State → Fips202.State) (fuel r : Nat) (st : IncState) (m : List UInt8) (i0 : Nat)
+    (hp : st.pos < r) (hf : m.length + r < fuel) :
+    ∃ v', SqiGen.Sponge.keccak_inc_absorb.run F fuel ⟨st.s, st.pos, r, m, m.length, i0⟩ = some v' ∧
+      v'.s_inc = (incAbsorb F r st m).s ∧ v'.pos = (incAbsorb F r st m).pos :=
+  SqiProofs.SpongeGen.inc_absorb_eq F fuel r st m i0 hp hf
+
+/-- `keccak_inc_finalize` -/
+theorem gen_inc_finalize_eq_model (F : Fips202.State → Fips202.State) (fuel : Nat) (st : IncState) (r : Nat) (p : UInt8) :
+    SqiGen.Sponge.keccak_inc_finalize.run F fuel ⟨st.s, st.pos, r, p⟩
+      = some ⟨(incFinalize r p st).s, (incFinalize r p st).pos, r, p⟩ :=
+  SqiProofs.SpongeGen.inc_finalize_eq F fuel st r p
+
+/-- `keccak_absorb` (zeroing loop, `while (mlen >= r)` block loop with its lane loop, the padded last block built in
+    `t[200]`, final lane loop): the lanes after the translated function = the model `keccakAbsorb`, whatever the uninitialised
+    state `s` and buffer `t` contain -/
+theorem gen_keccak_absorb_eq_model (F : Fips202.State → Fips202.State) (fuel r : Nat) (m : List UInt8) (p : UInt8)
+    (s0 : Fips202.State) (t0 : List UInt8) (i0 : Nat) (ht : t0.length = 200) (h0 : 0 < r) (hr : r ≤ 200)
+    (hf : m.length + 200 < fuel) :
+    ∃ v', SqiGen.Sponge.keccak_absorb.run F fuel ⟨s0, r, m, m.length, p, i0, t0⟩ = some v' ∧ v'.s = keccakAbsorb F r m p :=
+  SqiProofs.SpongeGen.keccak_absorb_eq F fuel r m p s0 t0 i0 ht h0 hr hf
+
+/-- `absorb_chunks` for the re-extracted text: one translated `keccak_inc_absorb` call after another, then the translated
+    `keccak_inc_finalize`, leave the lanes the translated one-shot `keccak_absorb` of the concatenation leaves -/
+theorem gen_absorb_chunk_step (F : Fips202.State → Fips202.State) (fuel r : Nat) (d : UInt8) (h : GoodParams r d)
+    (chunks : List (List UInt8)) (m : List UInt8) (i0 : Nat) (hf : m.length + r < fuel) :
+    ∃ v', SqiGen.Sponge.keccak_inc_absorb.run F fuel
+        ⟨(incAbsorbMany F r incInit chunks).s, (incAbsorbMany F r incInit chunks).pos, r, m, m.length, i0⟩ = some v' ∧
+      (⟨v'.s_inc, v'.pos⟩ : IncState) = incAbsorbMany F r incInit (chunks ++ [m]) := by
+  obtain ⟨v', h1, h2, h3⟩ := SqiProofs.SpongeGen.inc_absorb_eq F fuel r (incAbsorbMany F r incInit chunks) m i0
+    (absorb_pos_lt F r h.1 chunks) hf
+  refine ⟨v', h1, ?_⟩
+  simp only [incAbsorbMany, List.foldl_append, List.foldl_cons, List.foldl_nil] at h2 h3 ⊢
+  rw [h2, h3]
+
+/-- the re-extracted `store64(buf + off, u)` writes the 8 little-endian bytes of `u` at `off … off+8` and nothing else -/
+theorem gen_store64_eq_model (buf : List UInt8) (off : Nat) (u : UInt64) (hl : off + 8 ≤ buf.length) :
+    SqiProofs.SpongeGen.Written buf (SqiGen.Sponge.store64At buf off u) off 8 (store64 u) :=
+  SqiProofs.SpongeGen.store64At_written buf off u hl
+
+/-- the re-extracted `keccak_squeezeblocks` = the hand model `squeezeBlocksC`: `nblocks * r` bytes are stored at `h`, the
+    rest of the buffer is untouched, the lanes are the model's -/
+theorem gen_squeezeblocks_eq_model (F : Fips202.State → Fips202.State) (fuel r : Nat) (h8 : r % 8 = 0)
+    (h : List UInt8) (hoff nblocks i0 : Nat) (s : Fips202.State) (hl : hoff + nblocks * r ≤ h.length)
+    (hf : r ≤ fuel) (hn : nblocks ≤ fuel) :
+    ∃ v', SqiGen.Sponge.keccak_squeezeblocks.run F fuel ⟨h, hoff, nblocks, s, r, i0⟩ = some v' ∧
+      SqiProofs.SpongeGen.Written h v'.h hoff (nblocks * r) (squeezeBlocksC F r nblocks s).1 ∧
+      v'.s = (squeezeBlocksC F r nblocks s).2 :=
+  SqiProofs.SpongeGen.squeezeblocks_eq F fuel r h8 hf nblocks fuel ⟨h, hoff, nblocks, s, r, i0⟩ rfl rfl hl hn
+
+/-- the re-extracted `keccak_inc_squeeze` = the hand model `incSqueeze` (which `squeeze_chunks` is about) -/
+theorem gen_inc_squeeze_eq_model (F : Fips202.State → Fips202.State) (fuel r : Nat) (h0 : 0 < r) (st : IncState)
+    (hp : st.pos ≤ r) (h : List UInt8) (hoff outlen i0 : Nat) (hl : hoff + outlen ≤ h.length) (hf : outlen + r < fuel) :
+    ∃ v', SqiGen.Sponge.keccak_inc_squeeze.run F fuel ⟨h, hoff, outlen, st.s, st.pos, r, i0⟩ = some v' ∧
+      SqiProofs.SpongeGen.Written h v'.h hoff outlen (incSqueeze F r st outlen).1 ∧
+      (⟨v'.s_inc, v'.pos⟩ : IncState) = (incSqueeze F r st outlen).2 :=
+  SqiProofs.SpongeGen.inc_squeeze_eq F fuel r h0 st hp h hoff outlen i0 hl hf
 
 theorem genF_eq : SqiGen.Keccak.keccakF = Fips202.keccakF := funext keccakF_gen_eq_spec
 
